@@ -49,3 +49,114 @@ ADJ = Contract(
 ADJ.enum = enum_adj
 
 CONTRACTS = [ADJ]
+
+
+# ---------------------------------------------------------------------------------------------- post_selection_analyzer
+# Bounded in the number of gates (spine concrete, <= 4 instructions of arity 1..3), unbounded in the qubit indices (symbolic,
+# distinct within a gate): a gate marked post-selectable has at most one qubit that a later multi-qubit gate touches (M8).
+import itertools as _it
+
+import z3 as _z3
+
+from vf.pyvc.values import CList as _CList, Obj as _Obj
+
+
+def _qc_builder(arities):
+    def build(ex, name):
+        insts = []
+        for g, ar in enumerate(arities):
+            qs = []
+            for k in range(ar):
+                q = _z3.Int(f"q{g}_{k}")
+                ex.pc.append(q >= 0)
+                qs.append(ex.alloc(_Obj("Qubit", (("_index", q),)), f"{name}.data[{g}].qubits[{k}]"))
+            for a, b in _it.combinations(range(ar), 2):
+                ex.pc.append(_z3.Int(f"q{g}_{a}") != _z3.Int(f"q{g}_{b}"))
+            op = ex.alloc(_Obj("Operation", (("num_qubits", _z3.IntVal(ar)),)), f"{name}.data[{g}].operation")
+            insts.append(ex.alloc(_Obj("Instruction", (("operation", op), ("qubits", ex.alloc(_CList(tuple(qs)), f"{name}.q{g}")))), f"{name}.data[{g}]"))
+        return ex.alloc(_Obj("QuantumCircuit", (("data", ex.alloc(_CList(tuple(insts)), f"{name}.data")),)), name)
+    build.label = "arities" + "".join(map(str, arities))
+    build.arities = arities
+    return build
+
+
+def _m8(ex, env, ret):
+    arities = ex.vt["qc"].arities
+    marks = ex.deref(ret[0]).items
+    goals = [_z3.BoolVal(len(marks) == len(arities))]
+    for g, ar in enumerate(arities):
+        if ar < 2:
+            goals.append(_z3.Not(ex.truth(marks[g])))          # single-qubit instructions are reported as False
+            continue
+        later = [_z3.Int(f"q{h}_{k}") for h in range(g + 1, len(arities)) if arities[h] >= 2 for k in range(arities[h])]
+        touched = [_z3.If(_z3.Or(*[_z3.Int(f"q{g}_{k}") == q for q in later]) if later else _z3.BoolVal(False), 1, 0) for k in range(ar)]
+        goals.append(_z3.Implies(ex.truth(marks[g]), sum(touched) <= 1))
+    return _z3.And(*goals)
+
+
+def _qubits_listed(ex, env, ret):
+    arities = ex.vt["qc"].arities
+    lst = ex.deref(ret[1])
+    multi = [_z3.Int(f"q{g}_{k}") for g, ar in enumerate(arities) if ar >= 2 for k in range(ar)]
+    x, t, u = _z3.Int("x!ql"), _z3.Int("t!ql"), _z3.Int("u!ql")
+    member = _z3.Exists([t], _z3.And(0 <= t, t < lst.len, _z3.Select(lst.arr, t) == x))
+    return _z3.And(_z3.ForAll([x], member == (_z3.Or(*[x == q for q in multi]) if multi else _z3.BoolVal(False))),
+                   _z3.ForAll([t, u], _z3.Implies(_z3.And(0 <= t, t < u, u < lst.len), _z3.Select(lst.arr, t) != _z3.Select(lst.arr, u))))
+
+
+def replay_psa(inp):
+    return None
+
+
+def enum_psa():
+    """native: all programs of <=3 multi-qubit gates on 4 qubits"""
+    gates = [("cx", p) for p in _it.permutations(range(4), 2)] + [("ccz", (0, 1, 2)), ("ccz", (1, 2, 3)), ("h", (0,))]
+    for L in (1, 2, 3):
+        for prog in _it.product(gates[::3], repeat=L):
+            yield {"prog": [[g, list(q)] for g, q in prog]}
+
+
+def replay_psa_native(inp):
+    from qiskit import QuantumCircuit
+    from lightworks.qubit.converter.qiskit_convert import post_selection_analyzer
+    if "qc" in inp:      # counter-model of the contract: instructions with their qubit indices
+        prog = []
+        for inst in inp["qc"]["data"]:
+            qs = [q["_index"] for q in inst["qubits"]]
+            prog.append([{1: "h", 2: "cz", 3: "ccz"}[len(qs)], qs])
+        if any(q > 40 for _, qs in prog for q in qs):
+            return None
+        inp = {"prog": prog}
+    nq = max([q for _, qs in inp["prog"] for q in qs] + [3]) + 1
+    qc = QuantumCircuit(nq)
+    for g, q in inp["prog"]:
+        getattr(qc, g)(*q)
+    marks, qubits = post_selection_analyzer(qc)
+    gq = [q if len(q) >= 2 else None for _, q in inp["prog"]]
+    for i, q in enumerate(gq):
+        if q is None:
+            if marks[i]:
+                return f"{inp['prog']}: single-qubit instruction {i} marked post-selectable"
+            continue
+        later = set(x for h in gq[i + 1:] if h for x in h)
+        if marks[i] and sum(x in later for x in q) > 1:
+            return f"{inp['prog']}: gate {i} on {q} marked post-selectable although {sorted(set(q) & later)} are used by later multi-qubit gates"
+    if sorted(qubits) != sorted(set(x for h in gq if h for x in h)):
+        return f"{inp['prog']}: qubits needing post-selection {qubits}"
+    return None
+
+
+PSA = Contract(
+    target=f"{F}:post_selection_analyzer",
+    types={"qc": [_qc_builder(a) for L in (1, 2, 3, 4) for a in _it.product((1, 2, 3), repeat=L)]},
+    types_quick={"qc": [_qc_builder(a) for L in (1, 2, 3) for a in _it.product((1, 2, 3), repeat=L)] + [_qc_builder(a) for a in ((3, 1, 2, 2), (3, 2, 1, 2), (2, 3, 2, 3))]},
+    requires=[],
+    modifies=[],
+    ensures={"deferral_condition": _m8, "qubits_listed": _qubits_listed},
+    raises={},
+    replay=replay_psa_native,
+    props=["C12"],
+    assumes=["M8 (deferral of post-selection: at most one qubit of a post-selected gate is touched by a later multi-qubit gate) - sufficient condition, argued in DESIGN.md"],
+)
+PSA.enum = enum_psa
+CONTRACTS.append(PSA)
